@@ -153,4 +153,25 @@ theorem cancel_spec (p : ProxySubs) (id : Nat) :
     simp only [h, hm, if_false]
     exact ⟨rfl, hm, fun j _ => Iff.rfl⟩
 
+/-! ### several proxies: each has its own `_signalRules` -/
+
+theorem ProxyTable.get_put (t : List ProxySubs) (p q : Nat) (v : ProxySubs) :
+    ProxyTable.get (ProxyTable.put t p v) q = if q = p then v else ProxyTable.get t q := by
+  unfold ProxyTable.get ProxyTable.put
+  have hlen : p < (t ++ List.replicate (p + 1 - t.length) ({} : ProxySubs)).length := by
+    simp only [List.length_append, List.length_replicate]; omega
+  by_cases hq : q = p
+  · subst hq
+    simp only [if_true, List.getD_eq_getElem?_getD, List.getElem?_set_self hlen, Option.getD_some]
+  · simp only [hq, if_false, List.getD_eq_getElem?_getD]
+    rw [List.getElem?_set_ne (fun e => hq e.symm)]
+    by_cases hql : q < t.length
+    · rw [List.getElem?_append_left hql]
+    · rw [List.getElem?_append_right (by omega)]
+      have hnone : t[q]? = none := List.getElem?_eq_none (by omega)
+      rw [hnone]
+      by_cases hr : q - t.length < p + 1 - t.length
+      · simp [hr]
+      · simp [hr]
+
 end Txdbus.Route
